@@ -1122,6 +1122,11 @@ def run(run):
                            "perm.nonidentity_returned", "follow.reorderings", "scale.edges",
                            "scale.images_restricted_states", "perfect.states",
                            "framewise.silent_windows", "framewise.fallback_single_window",
-                           "framewise.remainder_samples", "framewise.poisoned_allocations",
+                           "framewise.remainder_samples",
                            "framewise.zeroed_ref", "framewise.zeroed_est",
                            "empty.inputs", "degenerate.inputs")
+    if not run.total.counters.get("framewise.poisoned_allocations", 0):
+        # implementation-side counter, reported only: a tree that allocates its result arrays initialised (np.zeros /
+        # np.full) has no uninitialised memory to leak, the poison dimension is then degenerate, not an error
+        run.assumptions.append("no np.empty allocation was observed in the framewise functions on this tree: the "
+                               "poison dimension of the 'framewise x poisons' space is degenerate")
